@@ -99,6 +99,16 @@ func EncGo(x interface{}) any {
 		}
 		return []any{"?", "i", strconv.FormatInt(v, 10)}
 	case float64:
+		switch {
+		case math.IsNaN(v):
+			return []any{"F", "nan"}
+		case math.IsInf(v, 1):
+			return []any{"F", "+inf"}
+		case math.IsInf(v, -1):
+			return []any{"F", "-inf"}
+		case v == 0 && math.Signbit(v):
+			return []any{"F", "-0"}
+		}
 		if !math.IsInf(v, 0) && !math.IsNaN(v) {
 			r := new(big.Rat).SetFloat64(v)
 			if r.Num().IsInt64() && r.Denom().IsInt64() {
@@ -433,4 +443,9 @@ func (n *N) hasStateful() bool {
 		}
 	}
 	return false
+}
+
+// special reports a float64 without a literal form: NaN, an infinity or negative zero.
+func (v V) special() bool {
+	return v.T == 'f' && (math.IsNaN(v.F) || math.IsInf(v.F, 0) || (v.F == 0 && math.Signbit(v.F)))
 }
